@@ -233,6 +233,8 @@ def check_C03(tier: str, v: Verdict):
                      "non-trivial = at least one overlapping candidate pair")
     _sample(v, recs)
     validate_traces(v, "Trace_Match", C03_CLAUSES, recs, site_match, what_fn=what_match)
+    from .extras import extra_labelmap
+    extra_labelmap(v, tier)
     if tier == "thorough":
         good = next(r for r in recs if r["out"] == "ok" and any(r["mp"]) and r["matcher"] == "naive")
         def corrupt(r):
